@@ -776,4 +776,126 @@ theorem observation_within_model_bounds (evs : List TEvent) (hw : wellTimed H P 
     generalize (fin + tol) / period P = q2 at h2 ⊢
     omega
 
+/-! ### a lossy observer: only a subsequence of the writes is seen (UDP loss, a peer that goes away) -/
+
+/-- The upper bounds survive loss.  Let `ws` be ANY subsequence of the writes of a well-timed run (the
+    datagrams that reached the observer, in order), `arr` the instants at which they were seen (each not
+    before the write happened, on a clock whose origin `c` is not after `t0`), `fin` an instant not before
+    the last event.  The i-th OBSERVED datagram is the write number ≥ i, so it is not seen before `i·d`;
+    and there are not more observations than writes.  Hence both predicates the driver evaluates hold. -/
+theorem observation_within_model_bounds_lossy (evs : List TEvent) (hw : wellTimed H P evs = true)
+    (c : Nat) (hc : c ≤ (treach H P evs).t0) (ws : List (Nat × Nat)) (arr : List Nat) (fin tol : Nat)
+    (hsub : ws.Sublist (treach H P evs).writes)
+    (hlen : arr.length = ws.length)
+    (harr : ∀ i (h1 : i < arr.length) (h2 : i < ws.length), (ws[i]).1 ≤ c + arr[i])
+    (hfin : (treach H P evs).now ≤ c + fin) :
+    obsNotEarly (period P) tol arr = true ∧ obsCountOk (period P) tol fin arr = true := by
+  have inv := tinv_reach H P evs hw
+  constructor
+  · unfold obsNotEarly
+    rw [obsNotEarlyFrom_iff]
+    intro i hi
+    have h2 : i < ws.length := by omega
+    have hincr : ws.Pairwise (fun a b => a.2 < b.2) := inv.incr.sublist hsub
+    have h3 := snd_ge_index ws 0 hincr (fun _ _ => Nat.zero_le _) i h2
+    have h4 := inv.due_le _ (hsub.subset (List.getElem_mem h2))
+    have h5 : i * period P ≤ (ws[i]).2 * period P := Nat.mul_le_mul_right _ (by omega)
+    have h6 := harr i hi h2
+    rw [Nat.zero_add]
+    omega
+  · unfold obsCountOk
+    simp only [decide_eq_true_eq]
+    have h1 := sent_length_le H P evs hw (c + fin) hfin
+    rw [← writes_parallel_sent] at h1
+    have h0 : arr.length ≤ (treach H P evs).writes.length := by
+      rw [hlen]
+      exact hsub.length_le
+    have h2 : (c + fin - (treach H P evs).t0) / period P ≤ (fin + tol) / period P :=
+      Nat.div_le_div_right (by omega)
+    generalize (c + fin - (treach H P evs).t0) / period P = q1 at h1 h2
+    generalize (fin + tol) / period P = q2 at h2 ⊢
+    omega
+
+/-- a strictly increasing map on an initial segment of the naturals is above the identity there -/
+theorem strictMono_ge_id (f : Nat → Nat) (n : Nat) (hmono : ∀ i j, i < j → j < n → f i < f j)
+    (i : Nat) (hi : i < n) : i ≤ f i := by
+  induction i with
+  | zero => exact Nat.zero_le _
+  | succ k ih =>
+    have h1 := ih (by omega)
+    have h2 := hmono k (k + 1) (by omega) hi
+    omega
+
+/-- … the same with the observer given as a strictly increasing index map `f` from observations to writes
+    (observation `i` is write number `f i`). -/
+theorem observation_within_model_bounds_lossy_idx (evs : List TEvent) (hw : wellTimed H P evs = true)
+    (c : Nat) (hc : c ≤ (treach H P evs).t0) (arr : List Nat) (f : Nat → Nat) (fin tol : Nat)
+    (hmono : ∀ i j, i < j → j < arr.length → f i < f j)
+    (hrange : ∀ i, i < arr.length → f i < (treach H P evs).writes.length)
+    (harr : ∀ i (h1 : i < arr.length) (h2 : f i < (treach H P evs).writes.length),
+      ((treach H P evs).writes[f i]).1 ≤ c + arr[i])
+    (hfin : (treach H P evs).now ≤ c + fin) :
+    obsNotEarly (period P) tol arr = true ∧ obsCountOk (period P) tol fin arr = true := by
+  constructor
+  · unfold obsNotEarly
+    rw [obsNotEarlyFrom_iff]
+    intro i hi
+    have h2 := hrange i hi
+    have h3 := resend_not_early H P evs hw (f i) h2
+    have h4 := harr i hi h2
+    have h5 : i * period P ≤ f i * period P :=
+      Nat.mul_le_mul_right _ (strictMono_ge_id f arr.length hmono i hi)
+    rw [Nat.zero_add]
+    omega
+  · unfold obsCountOk
+    simp only [decide_eq_true_eq]
+    have h1 := sent_length_le H P evs hw (c + fin) hfin
+    rw [← writes_parallel_sent] at h1
+    have h0 : arr.length ≤ (treach H P evs).writes.length := by
+      cases hn : arr.length with
+      | zero => exact Nat.zero_le _
+      | succ n =>
+        have h3 := strictMono_ge_id f arr.length hmono n (by omega)
+        have h4 := hrange n (by omega)
+        omega
+    have h2 : (c + fin - (treach H P evs).t0) / period P ≤ (fin + tol) / period P :=
+      Nat.div_le_div_right (by omega)
+    generalize (c + fin - (treach H P evs).t0) / period P = q1 at h1 h2
+    generalize (fin + tol) / period P = q2 at h2 ⊢
+    omega
+
+/-! ### the lower bound on an observation (a theorem only: the driver does not evaluate it) -/
+
+/-- What would be asserted on a quiet machine.  Under the hypotheses of `resend_count_ge_under_latency`
+    (positive interval, `L < d`, a `responsive L` run that is `settled` at `T`, the call still waiting, its
+    helper running), a LOSSLESS observer (it has seen every write: `arr.length = writes.length`) whose
+    estimate `t0'` of the first write is not before it (`t0 ≤ c + t0'`, e.g. the arrival of the first
+    datagram) and who looks at an instant `c + fin ≤ T` has seen at least `1 + (fin - t0' - L) / d`
+    datagrams. -/
+theorem observation_lower_bound_under_latency (hr : P.retry > 0) (L : Nat) (hL : L < period P)
+    (evs : List TEvent) (hw : wellTimed H P evs = true) (hresp : responsive H P L evs = true)
+    (T : Nat) (hset : settled P L (treach H P evs) T = true)
+    (hwait : (treach H P evs).logic.phase = .waiting)
+    (halive : (treach H P evs).logic.helperAlive = true)
+    (c t0' fin : Nat) (arr : List Nat)
+    (hlen : arr.length = (treach H P evs).writes.length)
+    (ht0 : (treach H P evs).t0 ≤ c + t0')
+    (hfin : c + fin ≤ T) :
+    obsCountGe (period P) L t0' fin arr = true := by
+  have inv := tinv_reach H P evs hw
+  have h1 := (resend_count_ge_under_latency H P hr L hL evs hw hresp T hset hwait halive).2
+  rw [← writes_parallel_sent] at h1
+  have hpos : 1 ≤ (treach H P evs).writes.length := by
+    cases htk : (treach H P evs).ticker with
+    | none => exact absurd htk (inv.waiting_ticker hwait hr)
+    | some tk => exact (inv.tick tk htk).writes_pos
+  unfold obsCountGe
+  simp only [decide_eq_true_eq]
+  have h2 : (fin - t0' - L) / period P ≤ (T - (treach H P evs).t0 - L) / period P :=
+    Nat.div_le_div_right (by omega)
+  rw [hlen]
+  generalize (fin - t0' - L) / period P = q1 at h2 ⊢
+  generalize (T - (treach H P evs).t0 - L) / period P = q2 at h1 h2
+  omega
+
 end RV.Exchange.Timed
